@@ -51,7 +51,7 @@ class RawPeer:
     # -- control channel -----------------------------------------------------
     async def connect(self, greet=True):
         self.reader, self.writer = await asyncio.open_connection(self.host, self.port)
-        self.conn = self.writer.transport.conn
+        self.conn = getattr(self.writer.transport, "conn", None)
         if greet:
             return await self.read_reply()
 
